@@ -38,6 +38,8 @@ for d in sorted((V / "seeded").iterdir()):
         lines = [l for l in r["lines"] if l.startswith("VIOLATION")]
         if r["exit"] == 0:
             parts.append(f"{k}: not caught")
+        elif not lines:
+            parts.append(f"{k}: not caught (the check ended with status {r['exit']} without a VIOLATION line)")
         elif any("no-failing-input-found" in l for l in lines) and not any("no-failing-input-found" not in l for l in lines):
             parts.append(f"{k}: correspondence broken, no-failing-input-found")
         else:
